@@ -233,7 +233,9 @@ def gen(tier, seed):
 
 
 def suites(tier, seed):
-    return [Suite("highest-channel-ids", "machine", lambda: [c for c in __import__("props.c10", fromlist=["x"]).gen_loop(tier, seed) if c.cid.startswith("hi")], monitor=__import__("props.c10", fromlist=["x"]).loop_monitor, nontrivial=lambda c, il: True, canon=__import__("machgen").canon_nondet,
+    return [Suite("panic-drops-at-api", "api", lambda: __import__("apigen").panic_drop_cases(Rng(seed + 1212), 150 if tier == "quick" else 3000), nontrivial=lambda c, il: True, canon=__import__("apigen").canon, shards=4, timeout=60,
+                  rule="public API over the real queue ends: a Channel that goes out of scope because a panic unwinds through its owner is dropped like any other - Channel.Close is sent (and the reply awaited) - so the I/O thread never finds an abandoned handle; the other channels are used afterwards; exact diff against the Lean Api model (drop = close)"),
+            Suite("highest-channel-ids", "machine", lambda: [c for c in __import__("props.c10", fromlist=["x"]).gen_loop(tier, seed) if c.cid.startswith("hi")], monitor=__import__("props.c10", fromlist=["x"]).loop_monitor, nontrivial=lambda c, il: True, canon=__import__("machgen").canon_nondet,
                   rule="methods on channels 65534 and 65535 (channel_max 65535) pass through the real I/O loop onto the wire like on any other channel"),
             Suite("api", "api", lambda: gen(tier, seed), monitor=monitor, nontrivial=nontrivial, canon=apigen.canon, shards=4, timeout=60,
                   rule="directed cross-channel ack/nack/reject cases for every acknowledging entry point (Delivery::* and Consumer::*) + random sessions over 36 kinds of public operations on 1-3 channels (Channel, Queue, Exchange, Consumer, Delivery, Connection), every boolean option drawn independently, strings incl. empty / 255 bytes / multibyte UTF-8, nested field tables, all 14 message properties, numeric extremes; synchronous calls answered by pre-loaded replies (4% of a wrong type), some after the I/O side is gone or with an error queued")]
